@@ -351,7 +351,10 @@ type Fetcher struct {
 	Bundles map[string]*crl.Bundle // url -> bundle; missing or nil: ErrFetch
 	Panics  map[string]any         // url -> panic value
 	Block   map[string]bool        // url -> block until ctx done
-	Calls   []FetchCall
+	// Hollow: url -> "nil" (Fetch returns (nil, nil)) | "empty" (a bundle
+	// without a base list, no error): a caller-written fetcher gone wrong
+	Hollow map[string]string
+	Calls  []FetchCall
 	Hook    func(url string) // called on entry (outside the lock)
 	Net     *netsim.Sim      // if set, every Fetch is noted in the network's event log
 	open    int
@@ -369,6 +372,7 @@ func (f *Fetcher) Fetch(ctx context.Context, url string) (*crl.Bundle, error) {
 	b := f.Bundles[url]
 	p, hasP := f.Panics[url]
 	block := f.Block[url]
+	hollow := f.Hollow[url]
 	hook := f.Hook
 	f.Calls = append(f.Calls, FetchCall{URL: url, Err: b == nil})
 	net := f.Net
@@ -393,6 +397,12 @@ func (f *Fetcher) Fetch(ctx context.Context, url string) (*crl.Bundle, error) {
 	}
 	if err := ctx.Err(); err != nil {
 		return nil, err
+	}
+	switch hollow {
+	case "nil":
+		return nil, nil
+	case "empty":
+		return &crl.Bundle{}, nil
 	}
 	if b == nil {
 		return nil, ErrFetch
